@@ -9,6 +9,7 @@ Inductive cinput : Type :=
 | CNs (url : string)                      (* @use "<url>";  a { v: <reference namespace>.$v } *)
 | CFwd (pfx : option string) (e : expose) (* mid: @forward "lib" [as p*] [show|hide ..];  main: @use "mid"; members of mid *)
 | CCfg (decls : list (string * Z * bool)) (cfg : list (string * Z))   (* @use "lib" with (cfg); variables of lib *)
+| CFwdB (a : fb_action) (pfx : option string) (e : expose)   (* numbers.scss: @forward "sass:math" ...; $own: 1 !default; *)
 | CBuiltin (k : nat).                     (* 0: configure sass:math; 1: assign math.$pi; 2: read math.$pi *)
 
 Inductive implres : Type :=
@@ -16,6 +17,7 @@ Inductive implres : Type :=
 | IView (vars : list (string * Z)) (funs mixins : list string)
 | IVars (vars : list (string * Z))
 | IOk
+| IVal (v : Z)                            (* `x: v` of the probe; 0 stands for pi *)
 | IErr | IOther.
 
 Record case := mkCase { c_in : cinput; c_impl : implres }.
@@ -31,7 +33,8 @@ Definition vars_sub (a b : list (string * Z)) : bool :=
 Definition vars_eq (a b : list (string * Z)) : bool := vars_sub a b && vars_sub b a.
 
 Inductive expect : Type :=
-| XNs (ok : bool) | XView (m : members) | XVars (o : option (list (string * Z))) | XPlain (ok : bool).
+| XNs (ok : bool) | XView (m : members) | XVars (o : option (list (string * Z))) | XPlain (ok : bool)
+| XVal (r : fb_res).
 
 Definition matches (x : expect) (i : implres) : bool :=
   match x, i with
@@ -40,6 +43,8 @@ Definition matches (x : expect) (i : implres) : bool :=
   | XVars (Some v), IVars v' => vars_eq v v'
   | XVars None, IErr => true
   | XPlain true, IOk | XPlain false, IErr => true
+  | XVal (FOk v), IVal w => (v =? w)%Z
+  | XVal FErr, IErr => true
   | _, _ => false
   end.
 
@@ -48,6 +53,7 @@ Definition model_out (i : cinput) : expect :=
   | CNs url => XNs (String.eqb (norm (default_namespace url)) (norm (spec_namespace url)))
   | CFwd p e => XView (forward_view lib p e)
   | CCfg d c => XVars (configure d c)
+  | CFwdB a p e => XVal (fwd_builtin a p e)
   | CBuiltin 0 => XPlain (builtin_configure true)
   | CBuiltin 1 => XPlain builtin_assign
   | CBuiltin _ => XPlain true
@@ -57,6 +63,7 @@ Definition spec_out (i : cinput) : expect :=
   | CNs url => XNs true                     (* the module is reachable through the reference namespace *)
   | CFwd p e => XView (spec_forward_view lib p e)
   | CCfg d c => XVars (spec_configure d c)
+  | CFwdB a p e => XVal (spec_fwd_builtin a p e)
   | CBuiltin 0 | CBuiltin 1 => XPlain false  (* built-ins can be neither configured nor assigned to *)
   | CBuiltin _ => XPlain true
   end.
@@ -70,17 +77,29 @@ Definition known_K2 (decls : list (string * Z * bool)) (cfg : list (string * Z))
   negb (cfg_dup cfg) && negb (forallb (fun kv => declares_default decls (fst kv)) cfg).
 (* (class 3, F29 - prefix filter tested against the wrong list - was fixed by 2f8ada8) *)
 
+(* K4: the built-in guard is an internal variable of the module scope: through a forwarding user module
+   it is lost with `show` or a prefix (a forwarded built-in variable can then be assigned), it blocks the
+   user module's own variables when it survives, and `with` can always override a forwarded built-in variable *)
+Definition known_K4 (a : fb_action) (pfx : option string) (e : expose) : bool :=
+  match a with
+  | FAssignBuiltin => allow_var e (pfx_name pfx "pi") && negb (marker_survives pfx e)
+  | FAssignOwn => marker_survives pfx e
+  | FConfigBuiltin => true
+  | FReadBuiltin | FConfigOwn => false
+  end.
+
 Definition known_class (i : cinput) : Z :=
   match i with
   | CNs url => if known_K1 url then 1 else 0
   | CCfg d c => if known_K2 d c then 2 else 0
   | CFwd p e => 0
+  | CFwdB a p e => if known_K4 a p e then 4 else 0
   | CBuiltin _ => 0
   end%Z.
 
 Definition b2z (b : bool) : Z := if b then 1%Z else 0%Z.
 Definition kind (i : cinput) : Z :=
-  match i with CNs _ => 1 | CFwd _ _ => 2 | CCfg _ _ => 3 | CBuiltin _ => 4 end%Z.
+  match i with CNs _ => 1 | CFwd _ _ => 2 | CCfg _ _ => 3 | CBuiltin _ => 4 | CFwdB _ _ _ => 5 end%Z.
 
 Definition run (c : case) : list Z :=
   [ b2z (matches (model_out (c_in c)) (c_impl c));
